@@ -669,7 +669,23 @@ func (e *SpecEnv) quant(x *EQuant) Val {
 		vars[b.Name] = Val{T: vt, C: []string{name}}
 	}
 	ne := e.with(vars)
+	var localSide []string
+	if e.side != nil {
+		ne.side = &localSide
+	}
 	body := ne.boolTerm(x.Body)
+	// side facts about terms that mention the bound variables cannot leave the quantifier: dropped
+	for _, f := range localSide {
+		leak := false
+		for _, v := range vars {
+			if strings.Contains(f, v.C[0]) {
+				leak = true
+			}
+		}
+		if !leak && e.side != nil {
+			*e.side = append(*e.side, f)
+		}
+	}
 	g := and(guards...)
 	if x.Forall {
 		body = implies(g, body)
@@ -870,6 +886,26 @@ func (e *SpecEnv) call(x *ECall) Val {
 		v := e.eval(x.Args[0])
 		t := e.fx.eng.resolveType(e.pkg, x.Args[1].String())
 		return Val{T: t, C: []string{v.C[1]}}
+	case "ref":
+		// ref(x): the object an interface value points to (its data word)
+		v := e.eval(x.Args[0])
+		if len(v.C) == 2 {
+			return Val{T: MathInt, C: []string{v.C[1]}}
+		}
+		return Val{T: MathInt, C: []string{v.C[0]}}
+	case "base":
+		v := e.eval(x.Args[0])
+		return Val{T: MathInt, C: []string{v.C[0]}}
+	case "off":
+		v := e.eval(x.Args[0])
+		if len(v.C) != 4 {
+			sfail("off() of non-slice")
+		}
+		rt := types.Type(types.Typ[types.Int])
+		if e.mode() == ModeInt {
+			rt = MathInt
+		}
+		return Val{T: rt, C: []string{v.C[1]}}
 	case "fresh":
 		v := e.eval(x.Args[0])
 		// allocated after function entry
